@@ -197,3 +197,95 @@ fn registry_is_complete() {
     assert!(props::cases("C01").is_none());
     assert!(props::cases("C21").is_none());
 }
+
+/// Knuth algorithm D on 64-bit limbs (textbook two-limb quotient estimate), with the add-back
+/// step optionally left out. Used to show that the C02 corpus contains inputs whose quotient-digit
+/// estimate is one too large — uniformly random inputs hit that with probability ~2^-63.
+fn knuth_d(u: &[u64], v: &[u64], add_back: bool) -> (Vec<u64>, Vec<u64>) {
+    let n = v.len();
+    let m = u.len();
+    assert!(n >= 2 && m >= n && v[n - 1] != 0);
+    let s = v[n - 1].leading_zeros();
+    let shl = |x: &[u64], extra: bool| -> Vec<u64> {
+        let mut out = vec![0u64; x.len() + extra as usize];
+        for i in 0..x.len() {
+            out[i] |= x[i] << s;
+            if s > 0 && i + 1 < out.len() {
+                out[i + 1] |= x[i] >> (64 - s);
+            }
+        }
+        out
+    };
+    let vn = shl(v, false);
+    let mut un = shl(u, true);
+    let mut q = vec![0u64; m - n + 1];
+    for j in (0..=m - n).rev() {
+        let num = ((un[j + n] as u128) << 64) | un[j + n - 1] as u128;
+        let mut qhat = num / vn[n - 1] as u128;
+        let mut rhat = num % vn[n - 1] as u128;
+        while qhat >> 64 != 0 || qhat * vn[n - 2] as u128 > ((rhat << 64) | un[j + n - 2] as u128) {
+            qhat -= 1;
+            rhat += vn[n - 1] as u128;
+            if rhat >> 64 != 0 {
+                break;
+            }
+        }
+        let (mut borrow, mut carry) = (0u64, 0u64);
+        for i in 0..n {
+            let p = qhat.wrapping_mul(vn[i] as u128).wrapping_add(carry as u128); // wrapping: after a missed add-back the state is garbage anyway
+            carry = (p >> 64) as u64;
+            let (d1, b1) = un[i + j].overflowing_sub(p as u64);
+            let (d2, b2) = d1.overflowing_sub(borrow);
+            un[i + j] = d2;
+            borrow = (b1 || b2) as u64;
+        }
+        let (d1, b1) = un[j + n].overflowing_sub(carry);
+        let (d2, b2) = d1.overflowing_sub(borrow);
+        un[j + n] = d2;
+        q[j] = qhat as u64;
+        if (b1 || b2) && add_back {
+            q[j] -= 1;
+            let mut c = 0u64;
+            for i in 0..n {
+                let t = un[i + j] as u128 + vn[i] as u128 + c as u128;
+                un[i + j] = t as u64;
+                c = (t >> 64) as u64;
+            }
+            un[j + n] = un[j + n].wrapping_add(c);
+        }
+    }
+    // unnormalise the remainder
+    let mut r = vec![0u64; n];
+    for i in 0..n {
+        r[i] = un[i] >> s;
+        if s > 0 {
+            r[i] |= un[i + 1] << (64 - s);
+        }
+    }
+    (q, r)
+}
+
+#[test]
+fn c02_corpus_contains_add_back_inputs() {
+    for (nl, dl) in [(4usize, 3usize), (4, 4), (16, 4)] {
+        let mut c = ctx("C02", "knuth D without add-back");
+        let (mut tested, mut exposed) = (0u32, 0u32);
+        for (n, d) in props::c02::div_inputs(&mut c, nl, dl) {
+            let v = d.to_u64_digits();
+            if v.len() < 2 {
+                continue;
+            }
+            let u = big_to_words(&n, nl);
+            tested += 1;
+            // sanity: the complete algorithm agrees with the oracle
+            let (q, r) = knuth_d(&u, &v, true);
+            assert_eq!((words_to_big(&q), words_to_big(&r)), (&n / &d, &n % &d), "reference Knuth D is wrong");
+            let (q, r) = knuth_d(&u, &v, false);
+            if (words_to_big(&q), words_to_big(&r)) != (&n / &d, &n % &d) {
+                exposed += 1;
+            }
+        }
+        assert!(tested > 1000);
+        assert!(exposed >= 1, "no add-back input in the ({}, {}) division corpus", nl, dl);
+    }
+}
